@@ -3,6 +3,8 @@ import CookModel.Lemmas.Convert
 import CookModel.Lemmas.Scale
 import CookModel.Lemmas.ConvertExample
 import CookModel.Lemmas.ScaleMore
+import CookModel.Lemmas.ScaleAnalysis
+import CookModel.Lemmas.ClosingStream
 /-
   C08  Scaling multiplies exactly the scalable amounts and nothing else.
 
@@ -287,6 +289,58 @@ theorem C08_recipe_scale_linear {c : Converter Rat} (hc : c.Sound) (r : Scalable
     apply List.map_congr_left
     intro x _
     exact amount_mul x f u hd
+
+/-- The whole-run invariant of the analysis model: in every recipe `parse` returns (any input,
+    extension set and converter environment; valid or alongside diagnostics), every `Linear`
+    ingredient value is a number or a range, and every cookware and timer value is `Fixed`. -/
+theorem C08_parsed_recipe_values (env : Env) (input : Str) (c : Col Rat)
+    (h : (parseRecipe (α := Rat) env input).output = some c) : QtyInv c :=
+  sa_parseEventsLoop_qty env input _ {} c (Inv.init env) QtyInv.init
+    (pullEvents_evOK env.cs env.ext input) h
+
+/-- **No `Error` on a parsed recipe, only ingredients are `Scaled`.** Scaling the recipe `parse`
+    returns — read as a `ScalableRecipe` `r` with the collector's component tables — by any factor
+    with any converter never reports the outcome `Error`; cookware and timers only report `Fixed` or
+    `NoQuantity` (so nothing but ingredient quantities is ever multiplied). -/
+theorem C08_parsed_recipe_outcomes (env : Env) (input : Str) (c : Col Rat)
+    (h : (parseRecipe (α := Rat) env input).output = some c) (conv : Converter Rat)
+    (r : ScalableRecipe Rat) (hi : r.ingredients = c.ingredients.toList)
+    (hc : r.cookware = c.cookware.toList) (ht : r.timers = c.timers.toList) (f : Rat) :
+    (∀ o ∈ (recipeScale conv r f).2.ingredients, o ≠ .error) ∧
+    (∀ o ∈ (recipeScale conv r f).2.cookware, o = .fixed ∨ o = .noQuantity) ∧
+    (∀ o ∈ (recipeScale conv r f).2.timers, o = .fixed ∨ o = .noQuantity) := by
+  have hq := C08_parsed_recipe_values env input c h
+  obtain ⟨h1, h2, h3, _⟩ := C08_outcomes_align conv r f
+  rw [h1, h2, h3, hi, hc, ht]
+  refine ⟨?_, ?_, ?_⟩
+  · intro o ho
+    obtain ⟨ig, hig, rfl⟩ := List.mem_map.mp ho
+    obtain ⟨k, hk⟩ := List.getElem?_of_mem hig
+    rw [Array.getElem?_toList] at hk
+    cases hqq : ig.quantity with
+    | none => simp [outcomeOf]
+    | some q =>
+      cases hv : q.value with
+      | fixed v => simp [outcomeOf, hv]
+      | linear v => simp [outcomeOf, hv, hq.ingr k ig hk q hqq v hv]
+  · intro o ho
+    obtain ⟨cw, hcw, rfl⟩ := List.mem_map.mp ho
+    obtain ⟨k, hk⟩ := List.getElem?_of_mem hcw
+    rw [Array.getElem?_toList] at hk
+    cases hqq : cw.quantity with
+    | none => right; rfl
+    | some sv =>
+      obtain ⟨v, rfl⟩ := hq.cw k cw hk sv hqq
+      left; rfl
+  · intro o ho
+    obtain ⟨t, htm, rfl⟩ := List.mem_map.mp ho
+    obtain ⟨k, hk⟩ := List.getElem?_of_mem htm
+    rw [Array.getElem?_toList] at hk
+    cases hqq : t.quantity with
+    | none => right; rfl
+    | some q =>
+      obtain ⟨v, hv⟩ := hq.tm k t hk q hqq
+      left; simp [outcomeOf, hv]
 
 /-! ## non-vacuity (on the hand-written example converter `Ex.conv`, independent of units.toml) -/
 
